@@ -19,8 +19,8 @@ EXTENDS BtSizing, Json, IOUtils, TLCExt
 Doc    == JsonDeserialize(IOEnv.TRACE_FILE)
 Traces == Doc.traces
 
-VARIABLES tid, l, st, pchk, settled, done
-vars == <<tid, l, st, pchk, settled, done>>
+VARIABLES tid, l, st, pchk, settled, done, ent
+vars == <<tid, l, st, pchk, settled, done, ent>>
 
 Apply(C, s, ev) ==
   LET r == RT(s, ev.trades)
@@ -56,10 +56,13 @@ ExpectRaise(C, s, ev, post) ==
 (***************************************************************************)
 \* K5: a sub-strategy worth exactly zero still holds positions after the event
 K5Obs(C, ev) ==
-  ev.fresh /\ \E k \in Nodes(C) : /\ IsStrat(C, k) /\ k # Root /\ IsZero(ev.val[k])
+  ev.exc = "none" /\ ev.fresh /\ \E k \in Nodes(C) : /\ IsStrat(C, k) /\ k # Root /\ IsZero(ev.val[k])
                                    /\ \E x \in Nodes(C) : IsSec(C, x) /\ InSubtree(C, x, k)
                                                           /\ ~IsZero(ev.pos[x])
 KnownFinding(C, s, ev, isSettled) ==
+  \* K7: the paper-trading shadow of a sub-strategy is run on the pre-start row
+  IF ev.exc # "none" /\ ev.op = "update" /\ ev.date = 1 /\ s.t = 0
+     /\ (\E n \in Nodes(C) : n # Root /\ IsStrat(C, n)) THEN "K7" ELSE
   IF K5Obs(C, ev) /\ (ev.bankrupt \/ ev.op \in {"flatten", "close"}) THEN "K5" ELSE
   IF ev.op = "update" /\ ev.date # s.t /\ s.t > 0 /\ ~isSettled THEN "F10"
   ELSE "none"
@@ -74,7 +77,7 @@ RaiseKF(C, s, ev) ==
        IN  IF hit = {} THEN "none"
            ELSE LET x == CHOOSE y \in hit : TRUE
                 IN  KF_C05(C, s, x, BudgetOf(C, s, x, ev.node, ev.a), OVF, TRUE)
-  ELSE IF ev.op = "rebalance" /\ IsSec(C, ev.child) /\ s.t > 0 /\ s.fresh /\ ~C.fi[ev.node] /\ ~IsZero(ev.a)
+  ELSE IF ev.op = "rebalance" /\ IsSec(C, ev.child) /\ s.t > 0 /\ ~C.fi[ev.node] /\ ~IsZero(ev.a)
   THEN KF_C05(C, s, ev.child,
               RSub(RMul(ev.a, IF IsNaN(ev.b) THEN s.sval[ev.node] ELSE ev.b),
                    RMul(s.swgt[ev.child], s.sval[ev.node])), OVF, TRUE)
@@ -91,7 +94,7 @@ SumKidsObs(C, f, n) == RSumSeq([i \in 1..Len(C.kids[n]) |-> f[C.kids[n][i]]])
 \* securities whose exact budget was minus their value but which were sized by
 \* the ordinary rule (known finding K4)
 IsK4(C, s, e) ==
-  /\ e[1] = "C05.sizing" /\ e[2] = "ok" /\ s.t > 0 /\ ~Bad(e[4]) /\ ~IsZero(e[4])
+  /\ e[1] \in {"C05.sizing", "C06.rebalance"} /\ e[2] = "ok" /\ s.t > 0 /\ ~Bad(e[4]) /\ ~IsZero(e[4])
   /\ RAdd(e[4], SecVal(C, s, e[3])) = Zero /\ e[5] # RNeg(s.pos[e[3]])
 K4Nodes(C, s, r) == {r.chk[i][3] : i \in {j \in 1..Len(r.chk) : IsK4(C, s, r.chk[j])}}
 
@@ -104,7 +107,7 @@ Judge(C, s, ev, r, prevchk) ==
         \o [i \in 1..Len(r.chk) |->
               <<r.chk[i][1], r.chk[i][3],
                 IF IsK4(C, s, r.chk[i]) THEN "K4"
-                ELSE IF r.chk[i][2] # "fail" \/ r.chk[i][1] # "C05.sizing" THEN r.chk[i][2]
+                ELSE IF r.chk[i][2] # "fail" \/ r.chk[i][1] \notin {"C05.sizing", "C06.rebalance"} THEN r.chk[i][2]
                 ELSE LET k == KF_C05(C, s, r.chk[i][3], r.chk[i][4], r.chk[i][5], FALSE)
                      IN  IF k = "none" THEN "fail" ELSE k>>]
         \* every executed trade is explained by the operation, and positions follow
@@ -112,29 +115,47 @@ Judge(C, s, ev, r, prevchk) ==
         \o ForNodes(C, LAMBDA n : IsSec(C, n),
                  LAMBDA n : <<"C07.position", n, ChkEq(ev.pos[n], post.pos[n], D)>>)
         \o <<<<"C16.flag", 1, ChkBool(ev.bankrupt = post.bankrupt)>>>>
+        \* terminal: once bankrupt no strategy of the tree is run any more and the
+        \* books do not move (date changes included)
+        \o (IF s.bankrupt THEN
+              \* (a paper-trading shadow is driven by its parent's update, not by the
+              \* backtest loop: what happens to a bankrupt shadow is C09's business)
+              <<<<"C16.norun", ev.node, ChkBool(C.paper \/ ev.op \notin {"run", "algo_enter"})>>>>
+              \o ForNodes(C, LAMBDA n : IsStrat(C, n),
+                    LAMBDA n : <<"C16.terminal", n, ChkEq(ev.cash[n], s.cash[n], D)>>)
+              \o ForNodes(C, LAMBDA n : IsSec(C, n),
+                    LAMBDA n : <<"C16.terminal", n, ChkBool(IsZero(ev.pos[n]) \/ ~IsZero(s.pos[n]))>>)
+            ELSE <<>>)
         \o <<<<"C10.finite", 1, ChkBool(ev.finite)>>>>
       fresh ==
         IF ~(ev.fresh /\ post.fresh) THEN <<>> ELSE
         \* C01: literal identities on the observation, prices from the input table
         ForNodes(C, LAMBDA n : IsStrat(C, n),
                  LAMBDA n : <<"C01.sum", n,
-                     ChkEq(ev.val[n], RAdd(ev.cash[n], SumKidsObs(C, ev.val, n)), D)>>)
+                     ChkEqG(ev.val[n], RAdd(ev.cash[n], SumKidsObs(C, ev.val, n)), Val(C, post, n), D)>>)
         \o ForNodes(C, LAMBDA n : IsSec(C, n),
                  LAMBDA n : <<"C01.secvalue", n,
-                     ChkEq(ev.val[n], IF IsZero(ev.pos[n]) THEN Zero
-                                      ELSE RMul(RMul(ev.pos[n], Px(C, n, post.t)), C.mult[n]), D)>>)
+                     ChkEqG(ev.val[n], IF IsZero(ev.pos[n]) THEN Zero
+                                       ELSE RMul(RMul(ev.pos[n], Px(C, n, post.t)), C.mult[n]),
+                            Val(C, post, n), D)>>)
         \o ForNodes(C, LAMBDA n : n # Root /\ ~C.fi[C.par[n]],
                  LAMBDA n : <<"C01.weight", n,
-                     ChkEq(ev.wgt[n], IF IsZero(ev.val[C.par[n]]) THEN Zero
-                                      ELSE RDiv(ev.val[n], ev.val[C.par[n]]), C.DW)>>)
+                     \* (a parent value that is floating-point residue, not exactly 0,
+                     \* makes the quotient meaningless: not judged)
+                     IF IsZero(ev.val[C.par[n]]) /\ ~ev.vz[C.par[n]] THEN "skip" ELSE
+                     ChkEqG(ev.wgt[n], IF IsZero(ev.val[C.par[n]]) THEN Zero
+                                       ELSE RDiv(ev.val[n], ev.val[C.par[n]]),
+                            IF Bad(Val(C, post, n)) \/ Val(C, post, n)[2] > D
+                               \/ Bad(Val(C, post, C.par[n])) \/ Val(C, post, C.par[n])[2] > D
+                            THEN OVF ELSE Wgt(C, post, n), C.DW)>>)
         \o ForNodes(C, LAMBDA n : TRUE,
-                 LAMBDA n : <<"C01.row.value", n, ChkEq(ev.rows.value[n], ev.val[n], D)>>)
+                 LAMBDA n : <<"C01.row.value", n, ChkEqG(ev.rows.value[n], ev.val[n], Val(C, post, n), D)>>)
         \o ForNodes(C, LAMBDA n : TRUE,
-                 LAMBDA n : <<"C01.row.notl", n, ChkEq(ev.rows.notl[n], ev.notl[n], D)>>)
+                 LAMBDA n : <<"C01.row.notl", n, ChkEqG(ev.rows.notl[n], ev.notl[n], Notl(C, post, n), D)>>)
         \o ForNodes(C, LAMBDA n : IsStrat(C, n),
-                 LAMBDA n : <<"C01.row.cash", n, ChkEq(ev.rows.cash[n], ev.cash[n], D)>>)
+                 LAMBDA n : <<"C01.row.cash", n, ChkEqG(ev.rows.cash[n], ev.cash[n], post.cash[n], D)>>)
         \o ForNodes(C, LAMBDA n : IsSec(C, n),
-                 LAMBDA n : <<"C01.row.pos", n, ChkEq(ev.rows.pos[n], ev.pos[n], D)>>)
+                 LAMBDA n : <<"C01.row.pos", n, ChkEqG(ev.rows.pos[n], ev.pos[n], post.pos[n], D)>>)
         \* the rows of the date just closed equal its end-of-date state
         \o (IF post.t # s.t /\ s.t > 0 /\ s.fresh THEN
               ForNodes(C, LAMBDA n : TRUE,
@@ -180,13 +201,16 @@ Judge(C, s, ev, r, prevchk) ==
         \* C07: the ledger identity on the recorded rows themselves
         \o ForNodes(C, LAMBDA n : IsStrat(C, n),
                  LAMBDA n : <<"C07.ledger", n,
-                    ChkEq(RSub(ev.rows.cash[n], post.pcash[n]),
+                    ChkEqG(RSub(ev.rows.cash[n], post.pcash[n]),
                           RSub(RSub(RSub(RAdd(RAdd(ev.rows.flows[n], post.nonflow[n]), post.swept[n]),
                                RSumSeq([i \in 1..Len(C.kids[n]) |->
                                   IF IsSec(C, C.kids[n][i]) THEN ev.rows.outl[C.kids[n][i]] ELSE Zero])),
                                ev.rows.fees[n]),
                                RSumSeq([i \in 1..Len(C.kids[n]) |->
-                                  IF IsStrat(C, C.kids[n][i]) THEN ev.rows.flows[C.kids[n][i]] ELSE Zero])), D)>>)
+                                  IF IsStrat(C, C.kids[n][i]) THEN ev.rows.flows[C.kids[n][i]] ELSE Zero])),
+                           IF \E k \in Nodes(C) : Bad(post.cash[k]) \/ post.cash[k][2] > D \/ Bad(post.outl[k])
+                                                  \/ post.outl[k][2] > D \/ post.fee[k][2] > D \/ post.flow[k][2] > D
+                           THEN OVF ELSE post.cash[n], D)>>)
         \* C08
         \o <<<<"C08.readfresh", 1, ChkBool(ev.rau)>>,
              <<"C08.beyondnow", 1, ChkBool(ev.lastidx <= post.t)>>,
@@ -207,13 +231,52 @@ Judge(C, s, ev, r, prevchk) ==
                  LAMBDA n : <<"C17.notional", n, ChkEq(ev.notl[n], Notl(C, post, n), D)>>)
         \o ForNodes(C, LAMBDA n : n # Root /\ C.fi[C.par[n]],
                  LAMBDA n : <<"C17.weight", n,
-                     ChkEq(ev.wgt[n], IF IsZero(ev.notl[C.par[n]]) THEN Zero
-                                      ELSE RDiv(ev.notl[n], ev.notl[C.par[n]]), C.DW)>>)
+                     IF IsZero(ev.notl[C.par[n]]) /\ ~ev.nz[C.par[n]] THEN "skip" ELSE
+                     ChkEqG(ev.wgt[n], IF IsZero(ev.notl[C.par[n]]) THEN Zero
+                                       ELSE RDiv(ev.notl[n], ev.notl[C.par[n]]),
+                            IF Bad(Notl(C, post, n)) \/ Notl(C, post, n)[2] > D
+                               \/ Bad(Notl(C, post, C.par[n])) \/ Notl(C, post, C.par[n])[2] > D
+                            THEN OVF ELSE Wgt(C, post, n), C.DW)>>)
         \o ForNodes(C, LAMBDA n : IsCpn(C, n),
                  LAMBDA n : <<"C17.coupon", n, ChkEq(ev.rows.cpn[n], post.cpn[n], D)>>)
         \o ForNodes(C, LAMBDA n : IsCpn(C, n),
                  LAMBDA n : <<"C17.holdingcost", n, ChkEq(ev.rows.hc[n], post.hc[n], D)>>)
   IN raw \o fresh
+
+(***************************************************************************)
+(* C06: post-condition of the Rebalance algo, evaluated when it returns.   *)
+(* ent = what was recorded when the algo was entered: the strategy, its    *)
+(* value B, the targets w, the cash fraction c, the costs paid so far.     *)
+(***************************************************************************)
+NoEnt == [active |-> FALSE, node |-> 0, val |-> Zero, w |-> <<>>, cash |-> NaN, cost |-> Zero]
+CostSoFar(C, s) == RAdd(SumAll(s.fee, StratSeq(C)), SumAll(s.bop, SecSeq(C)))
+TargetOf(w, k) == LET S == {i \in 1..Len(w) : w[i][1] = k}
+                  IN  IF S = {} THEN NaN ELSE w[CHOOSE i \in S : TRUE][2]
+RECURSIVE FlatBelow(_, _, _)
+FlatBelow(C, s, n) == IF IsSec(C, n) THEN IsZero(s.pos[n])
+                      ELSE \A i \in 1..Len(C.kids[n]) : FlatBelow(C, s, C.kids[n][i])
+C06Clauses(C, post, e) ==
+  LET n == e.node
+      c == IF IsNaN(e.cash) THEN Zero ELSE e.cash
+      K == RSub(CostSoFar(C, post), e.cost)
+      exact == ~C.integer /\ IsZero(K)
+  IN  IF C.fi[n] THEN <<>> ELSE
+      [i \in 1..Len(C.kids[n]) |->
+         LET k == C.kids[n][i]
+             w == TargetOf(e.w, k)
+         IN  IF IsNaN(w) THEN <<"C06.closed", k, ChkBool(FlatBelow(C, post, k))>>
+             ELSE IF Bad(w) THEN <<"C06.target", k, "skip">>
+             ELSE IF IsZero(w) /\ IsSec(C, k) THEN <<"C06.closed", k, ChkBool(IsZero(post.pos[k]))>>
+             ELSE LET tgt == RMul(RMul(w, RSub(One, c)), e.val)
+                      dev == RAbs(RSub(Val(C, post, k), tgt))
+                      bnd == IF exact THEN Zero
+                             ELSE IF IsSec(C, k)
+                                  THEN RAdd(RAdd(RAdd(UnitPx(C, post, k), HalfSpread(C, post, k, One)),
+                                                 FeeOf(C, post, k, One)), RAdd(K, K))
+                                  ELSE RAdd(K, K)
+                  IN  <<"C06.target", k,
+                        IF exact THEN ChkEq(Val(C, post, k), tgt, C.D)
+                        ELSE ChkCmp(Cmp(dev, bnd), {-1, 0})>>]
 
 Poisoned(C, s) == \E n \in Nodes(C) : IsOvf(s.cash[n]) \/ IsOvf(s.pos[n])
 
@@ -227,6 +290,7 @@ Init ==
   /\ pchk = -1
   /\ settled = TRUE
   /\ done = FALSE
+  /\ ent = NoEnt
 
 Verdict(t, v, at, what, kf) == PrintT(<<"V", t, v, at, what, kf>>)
 
@@ -236,7 +300,7 @@ Next ==
          C  == tr.C
      IN  IF l > Len(tr.events)
          THEN /\ Verdict(tr.tid, "OK", l - 1, {}, "none")
-              /\ done' = TRUE /\ UNCHANGED <<tid, l, st, pchk, settled>>
+              /\ done' = TRUE /\ UNCHANGED <<tid, l, st, pchk, settled, ent>>
          ELSE
          LET ev == tr.events[l]
              r  == Apply(C, st, ev)
@@ -248,14 +312,16 @@ Next ==
                      ELSE LET kr == IF kf # "none" THEN kf ELSE RaiseKF(C, st, ev)
                           IN  Verdict(tr.tid, IF kr = "none" THEN "FAIL" ELSE "KNOWN", l,
                                       {<<"C10.noraise", ev.node>>}, kr)
-                  /\ done' = TRUE /\ UNCHANGED <<tid, l, st, pchk, settled>>
+                  /\ done' = TRUE /\ UNCHANGED <<tid, l, st, pchk, settled, ent>>
              ELSE IF Poisoned(C, r.st)
              THEN /\ Verdict(tr.tid, "SKIP", l, {}, "none")
-                  /\ done' = TRUE /\ UNCHANGED <<tid, l, st, pchk, settled>>
+                  /\ done' = TRUE /\ UNCHANGED <<tid, l, st, pchk, settled, ent>>
              ELSE
              LET cl0 == Judge(C, st, ev, r, pchk)
-                 cl  == IF ExpectRaise(C, st, ev, r.st)
+                 cl1 == IF ExpectRaise(C, st, ev, r.st)
                         THEN Append(cl0, <<"C10.mustraise", ev.node, "fail">>) ELSE cl0
+                 cl  == IF ev.op = "algo_exit" /\ ev.algo = "Rebalance" /\ ent.active /\ ent.node = ev.node
+                        THEN cl1 \o C06Clauses(C, st, ent) ELSE cl1
                  fails == Names(cl, "fail")
              IN  IF fails # {}
                  THEN /\ Verdict(tr.tid, IF kf = "none" THEN "FAIL" ELSE "KNOWN", l, fails, kf)
@@ -271,10 +337,15 @@ Next ==
                                  exp_ratio |-> IdxRatio(C, r.st, Root),
                                  chk |-> r.chk]>>)
                          ELSE TRUE
-                      /\ done' = TRUE /\ UNCHANGED <<tid, l, st, pchk, settled>>
+                      /\ done' = TRUE /\ UNCHANGED <<tid, l, st, pchk, settled, ent>>
                  ELSE /\ st' = r.st
                       /\ l' = l + 1
                       /\ pchk' = IF ev.fresh THEN ev.chknow ELSE pchk
+                      /\ ent' = IF ev.op = "algo_enter" /\ ev.algo = "Rebalance" /\ ev.hasw
+                                THEN [active |-> TRUE, node |-> ev.node,
+                                      val |-> IF st.fresh THEN st.sval[ev.node] ELSE Val(C, st, ev.node),
+                                      w |-> ev.w, cash |-> ev.wcash, cost |-> CostSoFar(C, st)]
+                                ELSE IF ev.op = "algo_exit" /\ ev.algo = "Rebalance" THEN NoEnt ELSE ent
                       /\ settled' = IF ev.op \in {"update", "read"} THEN TRUE
                                     ELSE IF ev.op = "flatten" THEN FALSE
                                     ELSE IF ev.upd THEN FALSE ELSE settled
